@@ -13,5 +13,7 @@ CONSTANTS
   MaxStore = 0
   CtxMode = "ignored"
   MaxStalls = 0
+  StaleNextHop = FALSE
   Tails = FALSE
+  Vias <- ViasAny
 INVARIANTS Emit RunAgrees
